@@ -83,6 +83,24 @@ CHECKS = {
              "client's Close one-to-one, in order, byte-exact, each written before its Ping event is yielded; none with auto_pong "
              "off; a failed/refused pong leaves the event stream identical to the fault-free run.",
         note="Library vs application writes are distinguished by who is running when sendall is called."),
+    "C09": dict(
+        category="fault_enumeration", design_ref="DESIGN.md section 3 / C09",
+        technique="systematic fault injection: for each Hypothesis-generated scenario, one run per (socket operation, fault kind) and per truncation offset, judged by an event/wire-log oracle",
+        text="For every generated base scenario the fault-free run's socket operations are recorded and the scenario is re-run once "
+             "per individual fault: resolver error, refused/timeout/unreachable connect on the first j of n addresses, every "
+             "sendall (request, pongs, pings, close echo, application sends) x 3 fault kinds, every recv x 3, every selector wait x 2, "
+             "shutdown/close raising, and the stream truncated at every byte offset followed by EOF and by reset. Each run must "
+             "end in the right terminal event without an escaping exception or a hang, non-gracefully when no Close was ever sent "
+             "or received, with every socket released and application send errors being WebSocketError.",
+        note="Faults are injected one at a time (single-fault sequences); 'released' = close() called or object finalised."),
+    "C13": dict(
+        category="fault_enumeration", design_ref="DESIGN.md section 3 / C13",
+        technique="systematic crash-point enumeration: abandon the iterator at every event index by each of four mechanisms, check socket/selector release",
+        text="For every generated base scenario (incl. idle periods giving top-of-loop Polls, ping timeouts giving Unresponsive, TLS "
+             "wrapping) the consumer abandons the loop at every event index of the fault-free run by break, handler exception, "
+             "generator.close() and an exception leaving a with-block; afterwards the simulated socket must be closed (or finalised) "
+             "and the selector closed while the WebSocket object is still alive.",
+        note="CPython reference counting finalises the dropped generator; gc.collect() is run before a leak is reported."),
 }
 
 PENDING = {}
